@@ -13,13 +13,14 @@ import JF.Driver.Pot
 import JF.Driver.Thin
 import JF.Driver.Sys
 import JF.Driver.MP
+import JF.Driver.Deriv
 open JF.Driver
 
 def components : List (String × Comp) := [
   ("time", timeComp), ("num", numComp), ("pbc", pbcComp), ("cells", cellsComp), ("heap", heapComp),
   ("lift", liftComp), ("walker", walkerComp), ("store", storeComp), ("occ", occComp),
   ("factor", factorComp), ("act", actComp), ("pot", potComp), ("thin", thinComp), ("sys", sysComp),
-  ("mp", mpComp)
+  ("mp", mpComp), ("deriv", derivComp)
 ]
 
 partial def loop (h : IO.FS.Stream) (out : IO.FS.Stream) (c : Comp) (s : c.σ) : IO Unit := do
